@@ -183,6 +183,7 @@ type pathEngine struct {
 	badSeen map[string]bool
 	depth   int
 	steps   int
+	evErr   map[string]int         // event -> index of the error result of its call sites
 	vals    map[string]ssa.Value   // value key -> value
 	dfns    map[string]*ssa.Function // deferred closure id -> function
 }
@@ -193,7 +194,7 @@ const maxSteps = 400000
 // RunPath evaluates a rule over all paths of r.Fn.
 func RunPath(p *Prog, r *PathRule) *PathResult {
 	e := &pathEngine{p: p, r: r, res: &PathResult{Labels: map[string]int{}}, fnID: map[*ssa.Function]int{}, retFlow: map[ssa.Value]bool{},
-		tgtSeen: map[ssa.Instruction]bool{}, badSeen: map[string]bool{}, vals: map[string]ssa.Value{}, dfns: map[string]*ssa.Function{}}
+		tgtSeen: map[ssa.Instruction]bool{}, badSeen: map[string]bool{}, vals: map[string]ssa.Value{}, dfns: map[string]*ssa.Function{}, evErr: map[string]int{}}
 	if r.Fn == nil || len(r.Fn.Blocks) == 0 {
 		e.res.Undecided = append(e.res.Undecided, "function has no body")
 		return e.res
@@ -719,6 +720,11 @@ func (e *pathEngine) step(in ssa.Instruction, st *PState) {
 			vk := ""
 			if v, ok := in.(ssa.Value); ok {
 				vk = e.vkeyRaw(v)
+			}
+			if cc := callCommon(in); cc != nil {
+				if i := callErrIdx(cc); i >= 0 {
+					e.evErr[name] = i
+				}
 			}
 			e.fire(name, vk, st)
 		}
